@@ -1,0 +1,280 @@
+//go:build verif
+
+package bitpack
+
+// Contracts for the govc verifier (/verif). This file is only compiled with
+// the build tag "verif"; the //@ lines are machine-checked specifications of
+// the functions in bitpack.go, the Go functions below are proof harnesses
+// (lemmas stated as code over the contracts) and are never called by the
+// library.
+//
+// Bit layout oracle (Parquet format, "bit-packed run"): the eight values of a
+// group are packed LSB first; value e occupies bits [W*e, W*e+W) of the
+// little-endian integer formed by the W bytes of the group.
+
+//@ func pack1
+//@   mode bv
+//@   safety[C17]
+//@   requires #vals >= 8
+//@   ensures[C17] #res == #b + 1
+//@   ensures[C17] forall k in 0..#b: res[k] == old(b[k])
+//@   ensures[C17] res[#b] == concat(extract(0, 0, old(vals[7])), extract(0, 0, old(vals[6])), extract(0, 0, old(vals[5])), extract(0, 0, old(vals[4])), extract(0, 0, old(vals[3])), extract(0, 0, old(vals[2])), extract(0, 0, old(vals[1])), extract(0, 0, old(vals[0])))
+
+//@ func pack2
+//@   mode bv
+//@   safety[C17]
+//@   requires #vals >= 8
+//@   ensures[C17] #res == #b + 2
+//@   ensures[C17] forall k in 0..#b: res[k] == old(b[k])
+//@   ensures[C17] concat(res[#b+1], res[#b]) == concat(extract(1, 0, old(vals[7])), extract(1, 0, old(vals[6])), extract(1, 0, old(vals[5])), extract(1, 0, old(vals[4])), extract(1, 0, old(vals[3])), extract(1, 0, old(vals[2])), extract(1, 0, old(vals[1])), extract(1, 0, old(vals[0])))
+
+//@ func pack3
+//@   mode bv
+//@   safety[C17]
+//@   requires #vals >= 8
+//@   ensures[C17] #res == #b + 3
+//@   ensures[C17] forall k in 0..#b: res[k] == old(b[k])
+//@   ensures[C17] concat(res[#b+2], res[#b+1], res[#b]) == concat(extract(2, 0, old(vals[7])), extract(2, 0, old(vals[6])), extract(2, 0, old(vals[5])), extract(2, 0, old(vals[4])), extract(2, 0, old(vals[3])), extract(2, 0, old(vals[2])), extract(2, 0, old(vals[1])), extract(2, 0, old(vals[0])))
+
+//@ func pack4
+//@   mode bv
+//@   safety[C17]
+//@   requires #vals >= 8
+//@   ensures[C17] #res == #b + 4
+//@   ensures[C17] forall k in 0..#b: res[k] == old(b[k])
+//@   ensures[C17] concat(res[#b+3], res[#b+2], res[#b+1], res[#b]) == concat(extract(3, 0, old(vals[7])), extract(3, 0, old(vals[6])), extract(3, 0, old(vals[5])), extract(3, 0, old(vals[4])), extract(3, 0, old(vals[3])), extract(3, 0, old(vals[2])), extract(3, 0, old(vals[1])), extract(3, 0, old(vals[0])))
+
+//@ func unpack1
+//@   mode bv
+//@   safety[C17]
+//@   requires #vals >= 1
+//@   ensures[C17] #res == 8
+//@   ensures[C17] res[0] == zext(8, extract(0, 0, old(vals[0])))
+//@   ensures[C17] res[1] == zext(8, extract(1, 1, old(vals[0])))
+//@   ensures[C17] res[2] == zext(8, extract(2, 2, old(vals[0])))
+//@   ensures[C17] res[3] == zext(8, extract(3, 3, old(vals[0])))
+//@   ensures[C17] res[4] == zext(8, extract(4, 4, old(vals[0])))
+//@   ensures[C17] res[5] == zext(8, extract(5, 5, old(vals[0])))
+//@   ensures[C17] res[6] == zext(8, extract(6, 6, old(vals[0])))
+//@   ensures[C17] res[7] == zext(8, extract(7, 7, old(vals[0])))
+
+//@ func unpack2
+//@   mode bv
+//@   safety[C17]
+//@   requires #vals >= 2
+//@   ensures[C17] #res == 8
+//@   ensures[C17] res[0] == zext(8, extract(1, 0, concat(old(vals[1]), old(vals[0]))))
+//@   ensures[C17] res[1] == zext(8, extract(3, 2, concat(old(vals[1]), old(vals[0]))))
+//@   ensures[C17] res[2] == zext(8, extract(5, 4, concat(old(vals[1]), old(vals[0]))))
+//@   ensures[C17] res[3] == zext(8, extract(7, 6, concat(old(vals[1]), old(vals[0]))))
+//@   ensures[C17] res[4] == zext(8, extract(9, 8, concat(old(vals[1]), old(vals[0]))))
+//@   ensures[C17] res[5] == zext(8, extract(11, 10, concat(old(vals[1]), old(vals[0]))))
+//@   ensures[C17] res[6] == zext(8, extract(13, 12, concat(old(vals[1]), old(vals[0]))))
+//@   ensures[C17] res[7] == zext(8, extract(15, 14, concat(old(vals[1]), old(vals[0]))))
+
+//@ func unpack3
+//@   mode bv
+//@   safety[C17]
+//@   requires #vals >= 3
+//@   ensures[C17] #res == 8
+//@   ensures[C17] res[0] == zext(8, extract(2, 0, concat(old(vals[2]), old(vals[1]), old(vals[0]))))
+//@   ensures[C17] res[1] == zext(8, extract(5, 3, concat(old(vals[2]), old(vals[1]), old(vals[0]))))
+//@   ensures[C17] res[2] == zext(8, extract(8, 6, concat(old(vals[2]), old(vals[1]), old(vals[0]))))
+//@   ensures[C17] res[3] == zext(8, extract(11, 9, concat(old(vals[2]), old(vals[1]), old(vals[0]))))
+//@   ensures[C17] res[4] == zext(8, extract(14, 12, concat(old(vals[2]), old(vals[1]), old(vals[0]))))
+//@   ensures[C17] res[5] == zext(8, extract(17, 15, concat(old(vals[2]), old(vals[1]), old(vals[0]))))
+//@   ensures[C17] res[6] == zext(8, extract(20, 18, concat(old(vals[2]), old(vals[1]), old(vals[0]))))
+//@   ensures[C17] res[7] == zext(8, extract(23, 21, concat(old(vals[2]), old(vals[1]), old(vals[0]))))
+
+//@ func unpack4
+//@   mode bv
+//@   safety[C17]
+//@   requires #vals >= 4
+//@   ensures[C17] #res == 8
+//@   ensures[C17] res[0] == zext(8, extract(3, 0, concat(old(vals[3]), old(vals[2]), old(vals[1]), old(vals[0]))))
+//@   ensures[C17] res[1] == zext(8, extract(7, 4, concat(old(vals[3]), old(vals[2]), old(vals[1]), old(vals[0]))))
+//@   ensures[C17] res[2] == zext(8, extract(11, 8, concat(old(vals[3]), old(vals[2]), old(vals[1]), old(vals[0]))))
+//@   ensures[C17] res[3] == zext(8, extract(15, 12, concat(old(vals[3]), old(vals[2]), old(vals[1]), old(vals[0]))))
+//@   ensures[C17] res[4] == zext(8, extract(19, 16, concat(old(vals[3]), old(vals[2]), old(vals[1]), old(vals[0]))))
+//@   ensures[C17] res[5] == zext(8, extract(23, 20, concat(old(vals[3]), old(vals[2]), old(vals[1]), old(vals[0]))))
+//@   ensures[C17] res[6] == zext(8, extract(27, 24, concat(old(vals[3]), old(vals[2]), old(vals[1]), old(vals[0]))))
+//@   ensures[C17] res[7] == zext(8, extract(31, 28, concat(old(vals[3]), old(vals[2]), old(vals[1]), old(vals[0]))))
+
+//@ func Pack
+//@   mode bv
+//@   safety[C17]
+//@   requires #vals >= 8
+//@   ensures[C17] width == 1 ==> #res == #b + 1
+//@   ensures[C17] width == 2 ==> #res == #b + 2
+//@   ensures[C17] width == 3 ==> #res == #b + 3
+//@   ensures[C17] width == 4 ==> #res == #b + 4
+//@   ensures[C17] !(1 <= width && width <= 4) ==> res == b
+//@   ensures[C17] forall k in 0..#b: res[k] == old(b[k])
+//@   ensures[C17] width == 1 ==> res[#b] == concat(extract(0, 0, old(vals[7])), extract(0, 0, old(vals[6])), extract(0, 0, old(vals[5])), extract(0, 0, old(vals[4])), extract(0, 0, old(vals[3])), extract(0, 0, old(vals[2])), extract(0, 0, old(vals[1])), extract(0, 0, old(vals[0])))
+//@   ensures[C17] width == 2 ==> concat(res[#b+1], res[#b]) == concat(extract(1, 0, old(vals[7])), extract(1, 0, old(vals[6])), extract(1, 0, old(vals[5])), extract(1, 0, old(vals[4])), extract(1, 0, old(vals[3])), extract(1, 0, old(vals[2])), extract(1, 0, old(vals[1])), extract(1, 0, old(vals[0])))
+//@   ensures[C17] width == 3 ==> concat(res[#b+2], res[#b+1], res[#b]) == concat(extract(2, 0, old(vals[7])), extract(2, 0, old(vals[6])), extract(2, 0, old(vals[5])), extract(2, 0, old(vals[4])), extract(2, 0, old(vals[3])), extract(2, 0, old(vals[2])), extract(2, 0, old(vals[1])), extract(2, 0, old(vals[0])))
+//@   ensures[C17] width == 4 ==> concat(res[#b+3], res[#b+2], res[#b+1], res[#b]) == concat(extract(3, 0, old(vals[7])), extract(3, 0, old(vals[6])), extract(3, 0, old(vals[5])), extract(3, 0, old(vals[4])), extract(3, 0, old(vals[3])), extract(3, 0, old(vals[2])), extract(3, 0, old(vals[1])), extract(3, 0, old(vals[0])))
+
+//@ func Unpack
+//@   mode bv
+//@   safety[C17]
+//@   requires width == 1 ==> #vals >= 1
+//@   requires width == 2 ==> #vals >= 2
+//@   requires width == 3 ==> #vals >= 3
+//@   requires width == 4 ==> #vals >= 4
+//@   ensures[C17] (1 <= width && width <= 4) ==> #res == 8
+//@   ensures[C17] !(1 <= width && width <= 4) ==> #res == 0
+//@   ensures[C17] width == 1 ==> res[0] == zext(8, extract(0, 0, old(vals[0])))
+//@   ensures[C17] width == 1 ==> res[1] == zext(8, extract(1, 1, old(vals[0])))
+//@   ensures[C17] width == 1 ==> res[2] == zext(8, extract(2, 2, old(vals[0])))
+//@   ensures[C17] width == 1 ==> res[3] == zext(8, extract(3, 3, old(vals[0])))
+//@   ensures[C17] width == 1 ==> res[4] == zext(8, extract(4, 4, old(vals[0])))
+//@   ensures[C17] width == 1 ==> res[5] == zext(8, extract(5, 5, old(vals[0])))
+//@   ensures[C17] width == 1 ==> res[6] == zext(8, extract(6, 6, old(vals[0])))
+//@   ensures[C17] width == 1 ==> res[7] == zext(8, extract(7, 7, old(vals[0])))
+//@   ensures[C17] width == 2 ==> res[0] == zext(8, extract(1, 0, concat(old(vals[1]), old(vals[0]))))
+//@   ensures[C17] width == 2 ==> res[1] == zext(8, extract(3, 2, concat(old(vals[1]), old(vals[0]))))
+//@   ensures[C17] width == 2 ==> res[2] == zext(8, extract(5, 4, concat(old(vals[1]), old(vals[0]))))
+//@   ensures[C17] width == 2 ==> res[3] == zext(8, extract(7, 6, concat(old(vals[1]), old(vals[0]))))
+//@   ensures[C17] width == 2 ==> res[4] == zext(8, extract(9, 8, concat(old(vals[1]), old(vals[0]))))
+//@   ensures[C17] width == 2 ==> res[5] == zext(8, extract(11, 10, concat(old(vals[1]), old(vals[0]))))
+//@   ensures[C17] width == 2 ==> res[6] == zext(8, extract(13, 12, concat(old(vals[1]), old(vals[0]))))
+//@   ensures[C17] width == 2 ==> res[7] == zext(8, extract(15, 14, concat(old(vals[1]), old(vals[0]))))
+//@   ensures[C17] width == 3 ==> res[0] == zext(8, extract(2, 0, concat(old(vals[2]), old(vals[1]), old(vals[0]))))
+//@   ensures[C17] width == 3 ==> res[1] == zext(8, extract(5, 3, concat(old(vals[2]), old(vals[1]), old(vals[0]))))
+//@   ensures[C17] width == 3 ==> res[2] == zext(8, extract(8, 6, concat(old(vals[2]), old(vals[1]), old(vals[0]))))
+//@   ensures[C17] width == 3 ==> res[3] == zext(8, extract(11, 9, concat(old(vals[2]), old(vals[1]), old(vals[0]))))
+//@   ensures[C17] width == 3 ==> res[4] == zext(8, extract(14, 12, concat(old(vals[2]), old(vals[1]), old(vals[0]))))
+//@   ensures[C17] width == 3 ==> res[5] == zext(8, extract(17, 15, concat(old(vals[2]), old(vals[1]), old(vals[0]))))
+//@   ensures[C17] width == 3 ==> res[6] == zext(8, extract(20, 18, concat(old(vals[2]), old(vals[1]), old(vals[0]))))
+//@   ensures[C17] width == 3 ==> res[7] == zext(8, extract(23, 21, concat(old(vals[2]), old(vals[1]), old(vals[0]))))
+//@   ensures[C17] width == 4 ==> res[0] == zext(8, extract(3, 0, concat(old(vals[3]), old(vals[2]), old(vals[1]), old(vals[0]))))
+//@   ensures[C17] width == 4 ==> res[1] == zext(8, extract(7, 4, concat(old(vals[3]), old(vals[2]), old(vals[1]), old(vals[0]))))
+//@   ensures[C17] width == 4 ==> res[2] == zext(8, extract(11, 8, concat(old(vals[3]), old(vals[2]), old(vals[1]), old(vals[0]))))
+//@   ensures[C17] width == 4 ==> res[3] == zext(8, extract(15, 12, concat(old(vals[3]), old(vals[2]), old(vals[1]), old(vals[0]))))
+//@   ensures[C17] width == 4 ==> res[4] == zext(8, extract(19, 16, concat(old(vals[3]), old(vals[2]), old(vals[1]), old(vals[0]))))
+//@   ensures[C17] width == 4 ==> res[5] == zext(8, extract(23, 20, concat(old(vals[3]), old(vals[2]), old(vals[1]), old(vals[0]))))
+//@   ensures[C17] width == 4 ==> res[6] == zext(8, extract(27, 24, concat(old(vals[3]), old(vals[2]), old(vals[1]), old(vals[0]))))
+//@   ensures[C17] width == 4 ==> res[7] == zext(8, extract(31, 28, concat(old(vals[3]), old(vals[2]), old(vals[1]), old(vals[0]))))
+
+//@ func verifRoundTripA1
+//@   mode bv
+//@   safety[C17]
+//@   requires #vals >= 8
+//@   requires forall e in 0..8: vals[e] < 2
+//@   ensures[C17] #res == 8
+//@   ensures[C17] forall e in 0..8: res[e] == old(vals[e])
+//@ func verifRoundTripB1
+//@   mode bv
+//@   safety[C17]
+//@   requires #group >= 1
+//@   ensures[C17] #res == 1
+//@   ensures[C17] forall k in 0..1: res[k] == old(group[k])
+//@ func verifDispatch1
+//@   mode bv
+//@   safety[C17]
+//@   requires #vals >= 8
+//@   requires forall e in 0..8: vals[e] < 2
+//@   ensures[C17] #res == 8
+//@   ensures[C17] forall e in 0..8: res[e] == old(vals[e])
+
+//@ func verifRoundTripA2
+//@   mode bv
+//@   safety[C17]
+//@   requires #vals >= 8
+//@   requires forall e in 0..8: vals[e] < 4
+//@   ensures[C17] #res == 8
+//@   ensures[C17] forall e in 0..8: res[e] == old(vals[e])
+//@ func verifRoundTripB2
+//@   mode bv
+//@   safety[C17]
+//@   requires #group >= 2
+//@   ensures[C17] #res == 2
+//@   ensures[C17] forall k in 0..2: res[k] == old(group[k])
+//@ func verifDispatch2
+//@   mode bv
+//@   safety[C17]
+//@   requires #vals >= 8
+//@   requires forall e in 0..8: vals[e] < 4
+//@   ensures[C17] #res == 8
+//@   ensures[C17] forall e in 0..8: res[e] == old(vals[e])
+
+//@ func verifRoundTripA3
+//@   mode bv
+//@   safety[C17]
+//@   requires #vals >= 8
+//@   requires forall e in 0..8: vals[e] < 8
+//@   ensures[C17] #res == 8
+//@   ensures[C17] forall e in 0..8: res[e] == old(vals[e])
+//@ func verifRoundTripB3
+//@   mode bv
+//@   safety[C17]
+//@   requires #group >= 3
+//@   ensures[C17] #res == 3
+//@   ensures[C17] forall k in 0..3: res[k] == old(group[k])
+//@ func verifDispatch3
+//@   mode bv
+//@   safety[C17]
+//@   requires #vals >= 8
+//@   requires forall e in 0..8: vals[e] < 8
+//@   ensures[C17] #res == 8
+//@   ensures[C17] forall e in 0..8: res[e] == old(vals[e])
+
+//@ func verifRoundTripA4
+//@   mode bv
+//@   safety[C17]
+//@   requires #vals >= 8
+//@   requires forall e in 0..8: vals[e] < 16
+//@   ensures[C17] #res == 8
+//@   ensures[C17] forall e in 0..8: res[e] == old(vals[e])
+//@ func verifRoundTripB4
+//@   mode bv
+//@   safety[C17]
+//@   requires #group >= 4
+//@   ensures[C17] #res == 4
+//@   ensures[C17] forall k in 0..4: res[k] == old(group[k])
+//@ func verifDispatch4
+//@   mode bv
+//@   safety[C17]
+//@   requires #vals >= 8
+//@   requires forall e in 0..8: vals[e] < 16
+//@   ensures[C17] #res == 8
+//@   ensures[C17] forall e in 0..8: res[e] == old(vals[e])
+
+// Proof harnesses: round trips stated over the contracts above.
+
+// verifRoundTripA1: unpack1(pack1(nil, v)) == v for every group of 1-bit values.
+func verifRoundTripA1(vals []uint8) []uint8 { return unpack1(pack1(nil, vals)) }
+
+// verifRoundTripB1: pack1(nil, unpack1(g)) == g for every 1-byte group.
+func verifRoundTripB1(group []byte) []byte { return pack1(nil, unpack1(group)) }
+
+// verifDispatch1: the exported dispatchers at width 1.
+func verifDispatch1(vals []uint8) []uint8 { return Unpack(1, Pack(nil, 1, vals)) }
+
+// verifRoundTripA2: unpack2(pack2(nil, v)) == v for every group of 2-bit values.
+func verifRoundTripA2(vals []uint8) []uint8 { return unpack2(pack2(nil, vals)) }
+
+// verifRoundTripB2: pack2(nil, unpack2(g)) == g for every 2-byte group.
+func verifRoundTripB2(group []byte) []byte { return pack2(nil, unpack2(group)) }
+
+// verifDispatch2: the exported dispatchers at width 2.
+func verifDispatch2(vals []uint8) []uint8 { return Unpack(2, Pack(nil, 2, vals)) }
+
+// verifRoundTripA3: unpack3(pack3(nil, v)) == v for every group of 3-bit values.
+func verifRoundTripA3(vals []uint8) []uint8 { return unpack3(pack3(nil, vals)) }
+
+// verifRoundTripB3: pack3(nil, unpack3(g)) == g for every 3-byte group.
+func verifRoundTripB3(group []byte) []byte { return pack3(nil, unpack3(group)) }
+
+// verifDispatch3: the exported dispatchers at width 3.
+func verifDispatch3(vals []uint8) []uint8 { return Unpack(3, Pack(nil, 3, vals)) }
+
+// verifRoundTripA4: unpack4(pack4(nil, v)) == v for every group of 4-bit values.
+func verifRoundTripA4(vals []uint8) []uint8 { return unpack4(pack4(nil, vals)) }
+
+// verifRoundTripB4: pack4(nil, unpack4(g)) == g for every 4-byte group.
+func verifRoundTripB4(group []byte) []byte { return pack4(nil, unpack4(group)) }
+
+// verifDispatch4: the exported dispatchers at width 4.
+func verifDispatch4(vals []uint8) []uint8 { return Unpack(4, Pack(nil, 4, vals)) }
